@@ -39,6 +39,10 @@ CHECKS["C19"] = dict(level="exploration", ref="6/C19",
    text="Seeded search over init-building call histories (1-6 tracks, all seven descriptor setters, language tags, timescales); the encoded bytes are read back by an independent walker and compared with a reference model of the track list, then sent through a simulated transport (delivery schedule, either decode path), compared deeply with the built tree, re-encoded, and used to decode a fragment built for a seeded track id.",
    note="This property has no fault or schedule dimension; the simulator contributes the seeded history search, replay/minimisation and the transport round trip. Parameter sets are fixed public vectors; expectations for handler/media header come from ISO/IEC 14496-12/-30.",
    technique="deterministic simulation: seeded API-history search vs reference model of the track list + transport round trip")
+CHECKS["C12"] = dict(level="exploration", ref="6/C12",
+   text="Seeded search over producer histories and delimiter modes (styp, raw sidx v0/v1 with first_offset, raw mfra + ISM flag on a seekable simulated disk incl. seek errors, none, start-on-moof), decode path/mode/delivery, and UpdateSidx/Encode histories; grouping is compared with the producer's emission log, re-encoded bytes with the emitted units, and the index with positions and durations found independently in the output bytes.",
+   note="Pure delimiter modes only (precedence between mixed delimiters is not defined by the statement); reference walker/demuxer vsim/ref trusted; reference_ID and earliest_presentation_time values not constrained by the statement.",
+   technique="deterministic simulation: unit-stream state machine driven by a producer log + seekable SimDisk; conservation/order of moof-mdat pairs and index tiling vs independent walk")
 PENDING = {k: "claimed in DESIGN.md but its check is not built yet in this revision (work in progress; will move to checks)" for k in ["C02","C03","C04","C05","C06","C10","C11","C12","C19","C20"] if k not in CHECKS}
 def main():
     checks = []
